@@ -309,9 +309,26 @@ impl World {
             let pk = *dev.public_key();
             let mut states = vec![];
             let mut head = base;
+            // A second branch that does not only move forward between signed states: two commits ahead in
+            // epoch 0, strictly rewound to its first commit in epoch 1, a diverged commit afterwards; and a
+            // branch that exists in epoch 1 only.
+            let f1 = commit_on(raw, &[base], &format!("k{k} feature 1"), 1_600_000_050);
+            let f2 = commit_on(raw, &[f1], &format!("k{k} feature 2"), 1_600_000_051);
             for e in 0..nepochs {
                 head = commit_on(raw, &[head], &format!("k{k} e{e}"), 1_600_000_100 + e as i64);
                 raw.reference(&format!("{}refs/heads/master", ns_prefix(&pk)), head, true, "lab").unwrap();
+                let feature = match e {
+                    0 => f2,
+                    1 => f1,
+                    _ => commit_on(raw, &[base], &format!("k{k} feature diverged {e}"), 1_600_000_060 + e as i64),
+                };
+                raw.reference(&format!("{}refs/heads/feature", ns_prefix(&pk)), feature, true, "lab").unwrap();
+                let tmp = format!("{}refs/heads/tmp", ns_prefix(&pk));
+                if e == 1 {
+                    raw.reference(&tmp, f2, true, "lab").unwrap();
+                } else if let Ok(mut r) = raw.find_reference(&tmp) {
+                    r.delete().unwrap();
+                }
                 if e == 0 && ki % 2 == 0 {
                     raw.reference(&format!("{}refs/tags/v1", ns_prefix(&pk)), head, true, "lab").unwrap();
                 }
